@@ -21,7 +21,7 @@ def sites : List (String × String × String × String × String × String) := [
   ("generation/coverage.py", "generate_from_schema", "cached_draw", "", "derandomized", "coverage"),
   ("generation/coverage.py", "generate_from_schema", "cached_draw", "", "derandomized", "coverage"),
   ("generation/__init__.py", "<module>", "random.Random", "", "excludedById", "any"),
-  ("engine/phases/stateful/_executor.py", "execute_state_machine_loop", "hypothesis.seed", "config.execution.seed", "unclassified", "stateful"),
+  ("engine/phases/stateful/_executor.py", "execute_state_machine_loop", "hypothesis.seed", "seed", "seededDerived", "stateful"),
   ("engine/phases/stateful/_executor.py", "execute_state_machine_loop", "InstrumentedStateMachine.run", "", "seededByCaller", "stateful"),
   ("specs/openapi/examples.py", "_generate_single_example", "examples.generate_one", "", "derandomized", "examples")
 ]
